@@ -306,7 +306,294 @@ def rule_score_src(ctx):
     ctx.check(reads, "%s:score-from-best_score" % LOG_INFO, "the score text is selected by matching on info.best_score", lb.where(0), bad_what="log_uci_info does not read info.best_score")
 
 
-RULES = [("depth-units", rule_depth_units), ("sequence", rule_sequence), ("pv-legal", rule_pv_legal), ("score-src", rule_score_src)]
+
+
+# ------------------------------------------------------------------------------- C14.move-text
+
+PLY_DISPLAY = "<board::ply::Ply as std::fmt::Display>::fmt"
+SQUARE_DISPLAY = "<board::square::Square as std::fmt::Display>::fmt"
+TO_NOTATION = "board::ply::Ply::to_notation"
+
+
+def template_pieces(disp):
+    """Decode the byte template of `fmt::Arguments::new` as printed by rustc (b"\x0fInvalid range: \xc0\x02, \xc0\x00"):
+    a byte < 0x80 is the length of a literal piece that follows, 0xc0 is a `{}` placeholder, 0x00 ends the template.
+    Returns a list of str (literal) and None (placeholder), or None when some other code occurs (a format spec)."""
+    import ast
+    try:
+        raw = ast.literal_eval(disp)
+    except (ValueError, SyntaxError):
+        return None
+    if not isinstance(raw, (bytes, bytearray)):
+        return None
+    out = []
+    i = 0
+    while i < len(raw):
+        b = raw[i]
+        if b == 0:
+            return out if i == len(raw) - 1 else None
+        if b == 0xC0:
+            out.append(None)
+            i += 1
+        elif b < 0x80:
+            out.append(raw[i + 1:i + 1 + b].decode("utf-8", "replace"))
+            i += 1 + b
+        else:
+            return None
+    return None
+
+
+def fmt_event(path_events, start=0):
+    """(pieces, [argument expressions]) of the first fmt::Arguments::new event at or after `start`, and its index."""
+    for i in range(start, len(path_events)):
+        e = path_events[i]
+        if e[0] == "call" and e[2].endswith("fmt::Arguments::new") and len(e[3]) == 2:
+            tmpl = mir.strip_refs(e[3][0])
+            pieces = template_pieces(tmpl[1]) if tmpl[0] == "const" and isinstance(tmpl[1], str) else None
+            arr = mir.strip_refs(e[3][1])
+            args = []
+            if arr[0] == "agg":
+                for a in arr[3]:
+                    a = mir.strip_refs(a)
+                    if a[0] == "call" and a[1].endswith("Argument::new_display") and len(a[2]) == 1:
+                        args.append(("display", mir.strip_refs(a[2][0])))
+                    else:
+                        args.append(("other", a))
+            return (pieces, args), i
+    return None, None
+
+
+def rule_move_text(ctx):
+    """Every move the engine prints (pv tokens, bestmove) is text of the form <file><rank><file><rank>[qrbn]: the Display of
+    a Ply is its to_notation() and nothing else; to_notation is Display(start) + Display(dest) + the promotion letter;
+    the Display of a Square on the board is the letter 'a'+file followed by the digit rank+1."""
+    from . import cases
+    ix = ctx.ix
+    # (1) Display for Ply
+    b = ctx.body(PLY_DISPLAY)
+    c = cases.run(ix, b, {})
+    ok = not c.overflow and len(c.paths) >= 1
+    shapes = set()
+    for p in c.paths:
+        if p.end not in ("return", "panic"):
+            ok = False
+        ev, idx = fmt_event(p.events)
+        nxt, _ = fmt_event(p.events, (idx or 0) + 1) if ev else (None, None)
+        if ev is None or nxt is not None:
+            shapes.add("no single write")
+            continue
+        pieces, args = ev
+        a0 = mir.strip_copies(args[0][1]) if args else None
+        good = pieces == [None] and len(args) == 1 and args[0][0] == "display" and a0[0] == "call" and a0[1] == TO_NOTATION and mir.strip_copies(a0[2][0]) in (("deref", ("arg", "self")), ("arg", "self"))
+        shapes.add("to_notation" if good else "%s with %s" % (pieces, [expr_str(x[1])[:40] for x in args]))
+    ctx.check(ok and shapes == {"to_notation"}, "Ply::Display:is-to_notation", "the Display of a Ply writes `{}` of self.to_notation() on every path (%d path(s))" % len(c.paths), b.where(0),
+              bad_what="the Display of a Ply, which the pv and bestmove lines are built from, writes %s: some moves are printed as text that is not a UCI move" % sorted(shapes))
+    # (2) to_notation: per promotion case, the pushes
+    tb = ctx.body(TO_NOTATION)
+    kinds = ["Pawn", "Knight", "Bishop", "Rook", "Queen", "King"]
+    want = {"Queen": "q", "Rook": "r", "Bishop": "b", "Knight": "n"}
+    col = ("field", ("as", ("field", ("arg", "self"), "promoted_to"), "Some"), "colour")
+    for k in [None] + kinds:
+        if k is None:
+            val = cases.option("None")
+        else:
+            val = cases.option("Some", [cases.enum_val(ix, "board::piece::Kind", k, [col])])
+        cc = cases.run(ix, tb, {"self.promoted_to": val})
+        outs = set()
+        for p in cc.paths:
+            if p.end == "panic":
+                outs.add("panic")
+                continue
+            ev, idx = fmt_event(p.events)
+            head = None
+            if ev is not None:
+                pieces, args = ev
+                head = (tuple(pieces or ["?"]), tuple(expr_str(mir.strip_copies(a[1])) for a in args))
+            pushes = []
+            for e in p.events:
+                if e[0] == "call" and e[2].endswith("String::push") and len(e[3]) == 2:
+                    ch = e[3][1]
+                    pushes.append(chr(ch[1]) if ch[0] == "const" and isinstance(ch[1], int) else "?")
+                elif e[0] == "call" and (e[2].endswith("String::push_str") or e[2].endswith("String::insert") or e[2].endswith("String::insert_str") or e[2].endswith("String::clear") or e[2].endswith("String::truncate")):
+                    pushes.append("?")
+            ret = expr_str(p.ret) if p.ret else None
+            outs.add((head, "".join(pushes), "notation" if ret and "format" in ret or ret in ("notation",) else ret))
+        label = k or "none"
+        if k in want or k is None:
+            exp_push = want.get(k, "")
+            ok = len(outs) == 1 and "panic" not in outs
+            if ok:
+                head, pushes, ret = next(iter(outs))
+                ok = head == ((None, None), ("self.start", "self.dest")) and pushes == exp_push
+            ctx.check(ok, "to_notation:%s" % label, "promotion %s: `{start}{dest}` followed by %r on every path" % (label, exp_push), tb.where(0),
+                      bad_what="to_notation for promotion %s yields %s (expected Display(start), Display(dest), then %r)" % (label, sorted(map(str, outs)), exp_push))
+        else:
+            ctx.check(outs == {"panic"} or (len(outs) == 1 and next(iter(outs))[1] == ""), "to_notation:%s" % label, "promotion to %s is refused (cannot be generated)" % k, tb.where(0),
+                      bad_what="to_notation for an impossible promotion to %s yields %s" % (k, sorted(map(str, outs))))
+    # (3) Display for Square, for the 64 squares of the board
+    sb = ctx.body(SQUARE_DISPLAY)
+    bad = []
+    for r in range(8):
+        for f in range(8):
+            sc = cases.run(ix, sb, {"*self.rank": ("const", r, "u8"), "*self.file": ("const", f, "u8")})
+            txt = None
+            if len(sc.paths) == 1 and sc.paths[0].end == "return":
+                ev, idx = fmt_event(sc.paths[0].events)
+                if ev is not None and ev[0] is not None:
+                    pieces, args = ev
+                    vals = []
+                    for a in args:
+                        v = mir.strip_copies(a[1])
+                        if v[0] == "const" and isinstance(v[1], int):
+                            vals.append(chr(v[1]) if v[2] == "char" else str(v[1]))
+                        else:
+                            vals.append("?")
+                    it = iter(vals)
+                    txt = "".join(next(it, "?") if pc is None else pc for pc in pieces)
+            if txt != "abcdefgh"[f] + str(r + 1):
+                bad.append(((r, f), txt))
+    ctx.check(not bad, "Square::Display:algebraic", "the Display of each of the 64 squares is its algebraic name (file letter, rank digit)", sb.where(0),
+              bad_what="the Display of a Square is not its algebraic name for %s" % bad[:4])
+    # (4) the pv tokens and the bestmove are produced by that Display
+    for key, what in ((C.ITER_DEEP, "bestmove"), ("search::Search::log_uci_info", "pv")):
+        fb = ctx.body(key)
+        used = False
+        for bb in [fb] + ix.closures_of(key):
+            for _bi, t in bb.calls():
+                if callee_is(t, "*ToString>::to_string", "*ToString::to_string") and any("Ply" in x for x in (t.get("substs") or [])):
+                    used = True
+                if callee_is(t, TO_NOTATION):
+                    used = True
+                # `.map(ToString::to_string)` over an iterator of Ply: the function is passed as a value
+                for a in t.get("args", []):
+                    fnv = (a.get("const") or {}).get("fn") or ""
+                    if fnv.endswith("ToString>::to_string") and any("board::ply::Ply" in x for x in (t.get("substs") or [])):
+                        used = True
+        ctx.check(used, "%s:%s-text-from-Ply-Display" % (key, what), "the %s text is the Display / to_notation of a Ply" % what, fb.where(0),
+                  bad_what="the %s text is not produced by Ply's Display or to_notation (cannot decide its syntax)" % what)
+
+
+# ------------------------------------------------------------------------------- C14.info-syntax
+
+INFO_VALUE_KEYS = {"depth", "seldepth", "nodes", "time", "nps", "hashfull", "tbhits", "multipv", "currmovenumber", "cpuload", "currmove"}
+V = "\x01"
+
+
+def render_text(e, depth=0):
+    """The text a string-valued expression evaluates to, with every non-literal part replaced by the marker V;
+    None when the expression is not built from format!/String::new/literals in a way this reader understands."""
+    if depth > 12:
+        return None
+    e = mir.strip_copies(e)
+    if e[0] == "const" and isinstance(e[1], str):
+        return e[1]
+    if e[0] == "call" and isinstance(e[1], str):
+        c = e[1]
+        if c.endswith("String::new") and not e[2]:
+            return ""
+        if c.endswith("hint::must_use") or c.endswith("String::as_str") or c.endswith("::deref") or c.endswith("::to_string") or c.endswith("::to_owned") or c.endswith("String::from"):
+            return render_text(e[2][0], depth + 1) if e[2] else None
+        if c.endswith("fmt::format") and e[2]:
+            return render_text(e[2][0], depth + 1)
+        if c.endswith("fmt::Arguments::new") and len(e[2]) == 2:
+            tmpl = mir.strip_refs(e[2][0])
+            pieces = template_pieces(tmpl[1]) if tmpl[0] == "const" and isinstance(tmpl[1], str) else None
+            arr = mir.strip_refs(e[2][1])
+            if pieces is None or arr[0] != "agg":
+                return None
+            args = list(arr[3])
+            out = ""
+            for pc in pieces:
+                if pc is not None:
+                    out += pc
+                    continue
+                if not args:
+                    return None
+                a = mir.strip_refs(args.pop(0))
+                inner = None
+                if a[0] == "call" and a[1].endswith("Argument::new_display") and len(a[2]) == 1:
+                    x = mir.strip_copies(a[2][0])
+                    # a String built by another format! in the same function is expanded; anything else is a value
+                    if x[0] == "call" and (x[1].endswith("fmt::format") or x[1].endswith("hint::must_use") or x[1].endswith("String::new")):
+                        inner = render_text(x, depth + 1)
+                out += V if inner is None else inner
+            return out
+        if c.endswith("fmt::Arguments::from_str") or c.endswith("Arguments::from_str_nonconst"):
+            return render_text(e[2][0], depth + 1) if e[2] else None
+    return None
+
+
+def info_line_error(text):
+    """None if `text` (V = some value) is a well-formed UCI info line, else what is wrong."""
+    toks = text.split()
+    if not toks or toks[0] != "info":
+        return "does not start with `info`"
+    i = 1
+    n = len(toks)
+
+    def is_val(t):
+        return t == V or t == "-" + V
+
+    while i < n:
+        t = toks[i]
+        if t in INFO_VALUE_KEYS:
+            if i + 1 >= n or not is_val(toks[i + 1]):
+                return "`%s` is not followed by a value" % t
+            i += 2
+        elif t == "score":
+            if i + 2 >= n + 0 and not (i + 2 < n + 1):
+                return "`score` without cp/mate"
+            if i + 1 >= n or toks[i + 1] not in ("cp", "mate"):
+                return "`score` is not followed by cp or mate"
+            if i + 2 >= n or not is_val(toks[i + 2]):
+                return "`score %s` is not followed by a value" % toks[i + 1]
+            i += 3
+            if i < n and toks[i] in ("lowerbound", "upperbound"):
+                i += 1
+        elif t == "pv":
+            i += 1
+            while i < n and is_val(toks[i]):
+                i += 1
+        elif t == "string":
+            return None
+        elif is_val(t):
+            return "a value without a keyword in front of it"
+        else:
+            return "`%s` is not a UCI info keyword" % t.replace(V, "{}")
+    return None
+
+
+def rule_info_syntax(ctx):
+    """Every line log_uci_info can print is `info` followed by keyword/value groups of the UCI grammar, whatever the
+    combination of optional parts (seldepth, time, nps, the three score forms)."""
+    from . import cases
+    ix = ctx.ix
+    b = ctx.body("search::Search::log_uci_info")
+    c = cases.run(ix, b, {})
+    ctx.check(not c.overflow and c.paths, "log_uci_info:paths-enumerated", "%d path(s) through log_uci_info" % len(c.paths), b.where(0), bad_what="log_uci_info has too many paths to enumerate (cannot decide)")
+    seen = {}
+    n_lines = 0
+    for p in c.paths:
+        if p.end != "return":
+            continue
+        logs = [e for e in p.events if e[0] == "call" and (e[2].endswith("Search::log") or e[2].endswith("Logger::log"))]
+        if len(logs) != 1:
+            seen["<%d log calls on one path>" % len(logs)] = "exactly one line per call is expected"
+            continue
+        txt = render_text(logs[0][3][1])
+        n_lines += 1
+        if txt is None:
+            seen["<unreadable>"] = "the line is not built by format! from literals and values (cannot decide)"
+            continue
+        err = info_line_error(txt)
+        seen[" ".join(txt.replace(V, "{}").split())] = err
+    for line, err in sorted(seen.items()):
+        ctx.check(err is None, "log_uci_info:line:%s" % line[:70], "`%s` is a well-formed info line" % line, b.where(0),
+                  bad_what="log_uci_info can print `%s`: %s" % (line, err))
+    ctx.floor("info line shapes", len(seen), 4)
+
+
+RULES = [("depth-units", rule_depth_units), ("sequence", rule_sequence), ("pv-legal", rule_pv_legal), ("score-src", rule_score_src), ("move-text", rule_move_text), ("info-syntax", rule_info_syntax)]
 
 
 def run(tier):
